@@ -223,7 +223,12 @@ def check_riemann_ig(case):
     if not (len(locs[0]) == len(locs[1]) == len(locs[2])):
         o.label('jump-count-differs-skip')
         return o
-    want = case['pattern'].count('S') + 1
+    # (a shock whose pressure ratio differs from 1 by less than the jump detector's threshold is not a visible discontinuity:
+    #  e.g. pl = pr (1 + 2e-16), ul = ur (1 + 1e-16) is formally 'SCS' with zero-strength shocks)
+    ps_ = case['pstar']
+    want = 1 + sum(1 for side, p_side in (('l', P['pl']), ('r', P['pr']))
+                   if case['pattern'][0 if side == 'l' else -1] == 'S' and abs(ps_ / p_side - 1) > 1e-2)
+    want_max = case['pattern'].count('S') + 1
     for j0, j1, j2 in zip(*locs):
         D = (0.5 * (j2['xl'] + j2['xr']) - 0.5 * (j0['xl'] + j0['xr'])) / (2 * rel * t)
         L = (j1['Fl'][0], j1['Fl'][1], j1['Fl'][2], j1['Fl'][3])
@@ -238,7 +243,7 @@ def check_riemann_ig(case):
         rh(o, L, R, D, 1e-5, case['pattern'], what='contact' if contact else 'shock')
     o.info['jumps'] = len(locs[1])
     # the number of discontinuities found must match the pattern (contact may be invisible when densities and gammas coincide)
-    o.true('number of discontinuities matches the wave pattern', want - 1 <= len(locs[1]) <= want, found=len(locs[1]), want=want, regime=case['pattern'])
+    o.true('number of discontinuities matches the wave pattern', want - 1 <= len(locs[1]) <= want_max, found=len(locs[1]), want=want, regime=case['pattern'])
     o.nontrivial = P['ul'] != P['ur'] or P['gl'] != P['gr']
     return o
 
